@@ -2013,3 +2013,25 @@ Section FullInv.
     apply andb_true_iff in Ft. destruct Ft. eapply coll_write_dict; eauto.
   Qed.
 End FullInv.
+
+(* ------------------------------------------------------------------ *)
+(** * Executable form of the invariant (used by the examples) *)
+Definition ti_b (ct : ctable) (h : heap_t) : bool :=
+  forallb (fun o => match o with
+                    | OInst c d =>
+                        match lookup_cls ct c with
+                        | Some k => forallb (fun p => match lookup_attr k (fst p) with
+                                                      | Some sp => check_type FUEL ct h (snd p) (a_ty sp)
+                                                      | None => true end) d
+                        | None => true end
+                    | _ => true end) h.
+
+Lemma ti_b_iff ct h : ti_b ct h = true <-> TI ct h.
+Proof.
+  unfold ti_b, TI, TInvP, dict_ok. rewrite forallb_forall. split.
+  - intros H l c d N k a v sp Hk Hi Ha _. apply nth_error_In in N. specialize (H _ N). simpl in H.
+    rewrite Hk in H. rewrite forallb_forall in H. specialize (H _ Hi). simpl in H. now rewrite Ha in H.
+  - intros H o Hin. destruct o as [| | |c d]; auto. destruct (lookup_cls ct c) as [k|] eqn:Hk; auto.
+    apply forallb_forall. intros [a v] Hi. simpl. destruct (lookup_attr k a) as [sp|] eqn:Ha; auto.
+    apply In_nth_error in Hin. destruct Hin as [l N]. eapply H; eauto.
+Qed.
